@@ -134,76 +134,116 @@ def admissible_point(rng, sol, sig):
     return [hexf(exact_double(rng, 0.125, 0.875)) for _ in range(n)]
 
 
-def gen_purity(rng, sol, apis=('cxx',), variant='exc', nev=10, noise=25):
-    """C10: evaluate, do unrelated things (other evaluators, points, handles, precisions), re-evaluate."""
+def purity_picker(sol):
+    return (sa_chem_param if sol in ('rans_sa', 'fans_sa_transient_free_shear', 'fans_sa_steady_wall_bounded', 'euler_chem_1d')
+            else closed_param if sol in ('sod_1d', 'cp_normal') else admissible_param
+            if (sol.startswith('heateq') or sol.startswith('euler') or sol.startswith('navierstokes_2') or sol.startswith('navierstokes_3')
+                or sol.startswith('axi') or sol in ('laplace_2d', 'burgers_equation', 'navierstokes_4d_compressible_powerlaw')) else around_default)
+
+
+def gen_purity(rng, sol, apis=('cxx',), variant='exc', nev=10, noise=25, reverse=False, plan=None):
+    """C10: the value of an evaluator depends only on (solution, current parameters, arguments).
+    Phase 1 on handle `one`: parameter set P, every provided evaluator (+ random extra points) -> E(P).
+    Phase 2: unrelated calls (other evaluators/arities/points, other handles, other precision, inits).
+    Phase 3: a few parameters are changed one at a time (P -> P'), E(P') is taken at the SAME points, then the
+             parameters are set back and E(P) is re-taken in shuffled order (memo: bit-identical to phase 1).
+    Phase 4: a fresh handle `two` (different history) gets P' directly: E(P') must be bit-identical to phase 3.
+    With reverse=True the phases run in the order 4, 3', 1 in a NEW process whose memo is shared with its twin
+    (same plan): first-use effects (function statics, caches filled by the first call) show up as a mismatch.
+    Returns (execution, plan)."""
     e = CAT[sol]
     caps = provided(sol)
-    other = rng.choice([n for n in NONFIX if n != sol])
+    picker = purity_picker(sol)
+    if plan is None:
+        other = rng.choice([n for n in NONFIX if n != sol])
+        P = {}
+        for k in e['pars']:                     # every parameter gets a non-default admissible value
+            if k in ('R_N', 'R_N2'):
+                continue
+            P[k] = picker(rng, sol, k)
+        if sol == 'sod_1d':
+            P = {'Gamma': exact_double(rng, 1.2, 2.5), 'mu': exact_double(rng, 0.1, 0.4)}
+        P2 = dict(P)
+        for k in sorted(P):                     # about half of them differ in P2
+            if rng.random() < 0.5:
+                P2[k] = picker(rng, sol, k)
+        if sol == 'sod_1d':
+            P2 = {'Gamma': P['Gamma'], 'mu': exact_double(rng, 0.1, 0.4)}       # only mu differs
+        V = {k: [exact_double(rng, 0.5, 3.0) for _ in range(rng.randint(2, 6))] for k in e['vecs']}
+        V2 = {k: [exact_double(rng, 0.5, 3.0) for _ in range(rng.randint(2, 6))] for k in e['vecs']}
+        cb = [rng.choice(['const', 'arr', 'poly']), hexf(exact_double(rng, 0.5, 2)), hexf(exact_double(rng, 0.1, 0.9)), hexf(exact_double(rng, 0.1, 2))]
+        evs = []
+        for fn, sig in caps + [rng.choice(caps) for _ in range(nev)]:
+            p = rng.choice(['d', 'd', 'ld'])
+            evs.append((p, fn, sig, admissible_point(rng, sol, sig), rng.randint(-1, e['dim'] + 2), cb))
+        plan = dict(other=other, P=P, P2=P2, V=V, V2=V2, cb=cb, evs=evs, seed=rng.randint(0, 10**9))
+    other, P, P2, V, V2, cb, evs = plan['other'], plan['P'], plan['P2'], plan['V'], plan['V2'], plan['cb'], plan['evs']
+    lrng = random.Random(plan['seed'] + (1 if reverse else 0))
+    hs = {'d': [('one', sol), ('two', sol), ('oth', other)], 'ld': [('one', sol), ('two', sol), ('oth', other)]}
+
+    def setall(h, pars, vecs):
+        L = []
+        for p in ('d', 'ld'):
+            L.append(['select', p, 'cxx', h])
+            for k in sorted(pars):
+                L.append(['setp', p, 'cxx', k, hexf(pars[k])])
+            for k in sorted(vecs):
+                L.append(['setv', p, 'cxx', k, len(vecs[k])] + [hexf(v) for v in vecs[k]])
+        return L
+
+    def run_evals(order, h):
+        L = [['select', 'd', 'cxx', h], ['select', 'ld', 'cxx', h]]
+        for (p, fn, sig, pt, di, cbk) in order:
+            L.append(eval_line(p, pick_api(lrng, p, apis, fn, sig), fn, sig, pt, di, cbk))
+        return L
+
+    def sweeps():
+        L = []
+        for p in ('d', 'ld'):
+            L += sweep(hs[p], p, 'one')
+        return L
+
+    def noise_calls():
+        L = []
+        for _ in range(noise):
+            p = lrng.choice(['d', 'ld'])
+            r = lrng.random()
+            if r < 0.35:
+                L.append(['select', p, 'cxx', lrng.choice(['one', 'oth'])])
+                fn, sig = lrng.choice(all_overloads())
+                L.append(eval_line(p, 'cxx', fn, sig, point(lrng, sig), lrng.randint(0, 4)))
+            elif r < 0.6:
+                L.append(['select', p, 'cxx', 'oth'])
+                if CAT[other]['pars']:
+                    L.append(['setp', p, 'cxx', lrng.choice(CAT[other]['pars']), hexf(exact_double(lrng, 0.5, 3))])
+            elif r < 0.8:
+                L.append(['select', p, 'cxx', 'one'])
+                fn, sig = lrng.choice(caps)
+                L.append(eval_line(p, 'cxx', fn, sig, admissible_point(lrng, sol, sig), lrng.randint(1, 3), cb))
+            else:
+                L.append(['init', p, 'cxx', 'tmp', lrng.choice(NONFIX)])
+        return L
     S = []
-    hs = {'d': [('one', sol), ('two', sol), ('oth', other)], 'ld': [('one', sol), ('oth', other)]}
     for p in ('d', 'ld'):
         for h, s in hs[p]:
             S.append(['init', p, 'cxx', h, s])
-    # non-default parameters on the instances under test: a few scalar parameters (admissible values) and
-    # every vector parameter (new length), so that state an evaluator might corrupt is not the default
-    picker = (sa_chem_param if sol in ('rans_sa', 'fans_sa_transient_free_shear', 'fans_sa_steady_wall_bounded', 'euler_chem_1d')
-              else closed_param if sol in ('sod_1d', 'cp_normal') else admissible_param
-              if (sol.startswith('heateq') or sol.startswith('euler') or sol.startswith('navierstokes_2') or sol.startswith('navierstokes_3')
-                  or sol.startswith('axi') or sol in ('laplace_2d', 'burgers_equation', 'navierstokes_4d_compressible_powerlaw')) else around_default)
-    for p in ('d', 'ld'):
-        for h in ('one', 'two')[:2 if p == 'd' else 1]:
-            S.append(['select', p, 'cxx', h])
-            for k in rng.sample(e['pars'], min(3, len(e['pars']))):
-                if sol == 'sod_1d' or k in ('R_N', 'R_N2'):
-                    continue
-                S.append(['setp', p, 'cxx', k, hexf(picker(rng, sol, k))])
-            for k in e['vecs']:
-                n = rng.randint(2, 6)
-                S.append(['setv', p, 'cxx', k, n] + [hexf(exact_double(rng, 0.5, 3.0)) for _ in range(n)])
-    cb = [rng.choice(['const', 'arr', 'poly']), hexf(exact_double(rng, 0.5, 2)), hexf(exact_double(rng, 0.1, 0.9)), hexf(exact_double(rng, 0.1, 2))]
-    evs = []
-    for _ in range(nev):
-        p = rng.choice(['d', 'd', 'ld'])
-        fn, sig = rng.choice(caps)
-        evs.append((p, fn, sig, admissible_point(rng, sol, sig), rng.randint(-1, e['dim'] + 2), cb))
+    sh = list(evs); lrng.shuffle(sh)
+    phase1 = setall('one', P, V) + sweeps() + run_evals(evs, 'one')
+    phase3 = setall('one', P2, V2) + run_evals(evs, 'one') + setall('one', P, V) + run_evals(sh, 'one')
+    phase4 = setall('two', P2, V2) + run_evals(sh, 'two')
+    if not reverse:
+        S += phase1 + noise_calls() + phase3 + phase4 + sweeps()
+    else:
+        S += phase4 + noise_calls() + setall('one', P2, V2) + run_evals(sh, 'one') + setall('one', P, V) + run_evals(evs, 'one') + sweeps()
+    ex = Execution(S, variant=variant, label='purity:%s%s' % (sol, ':rev' if reverse else ''))
+    return ex, plan
 
-    def run_evals(order, hsel):
-        L = []
-        lastsel = {}
-        for (p, fn, sig, pt, di, cbk) in order:
-            h = hsel(p)
-            if lastsel.get(p) != h:
-                L.append(['select', p, 'cxx', h]); lastsel[p] = h
-            L.append(eval_line(p, pick_api(rng, p, apis, fn, sig), fn, sig, pt, di, cbk))
-        return L
-    for p in ('d', 'ld'):
-        S += sweep(hs[p], p, 'one')
-    S += run_evals(evs, lambda p: 'one')
-    # noise
-    for _ in range(noise):
-        p = rng.choice(['d', 'ld'])
-        r = rng.random()
-        if r < 0.35:
-            S.append(['select', p, 'cxx', rng.choice(['one', 'oth'])])
-            fn, sig = rng.choice(all_overloads())
-            S.append(eval_line(p, 'cxx', fn, sig, point(rng, sig), rng.randint(0, 4)))
-        elif r < 0.6:
-            S.append(['select', p, 'cxx', 'oth'])
-            if CAT[other]['pars']:
-                S.append(['setp', p, 'cxx', rng.choice(CAT[other]['pars']), hexf(exact_double(rng, 0.5, 3))])
-        elif r < 0.8:
-            S.append(['select', p, 'cxx', 'one'])
-            fn, sig = rng.choice(caps)
-            S.append(eval_line(p, 'cxx', fn, sig, admissible_point(rng, sol, sig), rng.randint(1, 3), cb))
-        else:
-            S.append(['init', p, 'cxx', 'tmp', rng.choice(NONFIX)])
-    # the same evaluations again, shuffled, on the first handle and (double) on the second handle
-    ev2 = list(evs); rng.shuffle(ev2)
-    S += run_evals(ev2, lambda p: 'one')
-    S += run_evals([x for x in evs if x[0] == 'd'], lambda p: 'two')
-    for p in ('d', 'ld'):
-        S += sweep(hs[p], p, 'one')
-    return Execution(S, variant=variant, label='purity:%s' % sol)
+
+def gen_purity_pair(rng, sol, group, **kw):
+    a, plan = gen_purity(rng, sol, **kw)
+    b, _ = gen_purity(rng, sol, reverse=True, plan=plan, **kw)
+    a.group = b.group = group
+    return [a, b]
 
 
 # ------------------------------------------------------------------------------------------------
@@ -411,8 +451,8 @@ def sa_chem_param(rng, sol, k):
 
 def closed_param(rng, sol, k):
     u = lambda lo, hi: exact_double(rng, lo, hi)
-    if sol == 'sod_1d':
-        return u(1.2, 2.5)            # Gamma; mu is set consistently by gen_values
+    if sol == 'sod_1d':               # Gamma (mu is set consistently by gen_values); a few classical values too
+        return rng.choice([1.4, 2.0, 5.0 / 3.0, 3.0]) if rng.random() < 0.3 else u(1.2, 2.5)
     if k == 'm':
         return sgn(rng) * u(0.5, 3.0)
     if k in ('sigma', 'sigma_d'):
@@ -454,6 +494,7 @@ def gen_values(rng, sol, precs=('d', 'ld'), nassign=2, npts=3, evaluators=None, 
     S = []
     for p in precs:
         S.append(['init', p, 'cxx', 'val', sol])
+    last_pts = []
     for _ in range(nassign):
         pick = setter or (sa_chem_param if sol in ('rans_sa', 'fans_sa_transient_free_shear', 'fans_sa_steady_wall_bounded', 'euler_chem_1d')
                           else closed_param if sol in ('sod_1d', 'cp_normal') else admissible_param)
@@ -465,6 +506,9 @@ def gen_values(rng, sol, precs=('d', 'ld'), nassign=2, npts=3, evaluators=None, 
             data = [exact_double(rng, -3.0, 3.0) for _ in range(rng.randint(1, 8))]
         cbk = [rng.choice(['const', 'arr', 'poly']), hexf(exact_double(rng, 0.5, 2.0)), hexf(exact_double(rng, 0.1, 0.9)), hexf(exact_double(rng, 0.1, 2.0))]
         pts = []
+        # first, the evaluations of the previous assignment once more at the SAME points (new parameters): a
+        # cache keyed on the point, or a value computed once and kept, shows up against the oracle
+        pts += ([last_pts[-1]] + [x for x in last_pts[:-1] if rng.random() < 0.5]) if last_pts else []
         for _ in range(npts):
             order = list(caps); rng.shuffle(order)
             for fn, sig in order:
@@ -472,6 +516,7 @@ def gen_values(rng, sol, precs=('d', 'ld'), nassign=2, npts=3, evaluators=None, 
                 if sol == 'cp_normal' and 'I' in sig:
                     dis = [rng.randint(0, 20)]
                 pts.append((fn, sig, value_point(rng, sol, sig), dis[0]))
+        last_pts = pts[-len(caps):]
         for p in precs:
             for k in e['pars']:
                 S.append(['setp', p, 'cxx', k, hexf(vals[k])])
@@ -485,7 +530,9 @@ def gen_values(rng, sol, precs=('d', 'ld'), nassign=2, npts=3, evaluators=None, 
                 S.append(['setv', p, 'cxx', 'vec_data', len(data)] + [hexf(v) for v in data])
             for fn, sig, pt, di in pts:
                 S.append(eval_line(p, 'cxx', fn, sig, pt, di, cbk))
-    return Execution(S, variant=variant, label='values:%s' % sol)
+    ex = Execution(S, variant=variant, label='values:%s' % sol)
+    ex.oracle = True
+    return ex
 
 
 # ------------------------------------------------------------------------------------------------
